@@ -358,3 +358,52 @@ add("P11", "break", CORE, RED, "            if common_index is not None:\n      
 add("P11", "break", CORE, RED, "            if common_index is not None:\n                result_index = common_index\n            else:\n                result_index = pd.RangeIndex(len(self))\n", "            result_index = self.result_index\n", name="P11 transform labelled by the group index", accept_error=True)
 add("P1", "keep", NB, "_group_func_wrap", "orig_type", "source_dtype", count=0, name="P1 original-dtype variable renamed")
 add("P1", "keep", NB, "_apply_cumulative", "orig_dtype", "dt0", count=0, name="P1 original-dtype variable renamed (cumulative)")
+
+# --------------------------------------------------------------------------------------------- A2..A8, A3*
+BG = "BaseGroupBy."
+add("A2", "break", EMAS, "ema", "@check_data_inputs_aligned('values', 'times')", "@check_data_inputs_aligned('values, times')", name="A2 decorator given one comma-joined string")
+add("A2", "break", EMAS, "ema_grouped", "@check_data_inputs_aligned('group_key', 'values', 'times', 'mask')", "@check_data_inputs_aligned('group_keys', 'values', 'times', 'mask')", name="A2 decorator names a parameter that does not exist")
+add("A2", "break", NB, "_apply_group_method_single_chunk", "@check_data_inputs_aligned('group_key', 'values')", "@check_data_inputs_aligned('group_key', 'value')", name="A2 misspelt name on the chunk worker")
+add("A4", "break", API, BG + "cumsum", "self._grouper.cumsum(self._values_to_group)", "self._grouper.cumsum(self._obj)", name="A4 cumsum passes the whole object")
+add("A4", "break", API, BG + "head", "self._grouper.head(self._values_to_group, n)", "self._grouper.head(self._obj, n)", name="A4 head passes the whole object")
+add("A4", "break", API, BG + "agg", "self._grouper.apply(self._values_to_group, func, mask=mask)", "self._grouper.apply(self._obj, func, mask=mask)", name="A4 agg(callable) passes the whole object")
+add("A4", "break", API, "BaseGroupByRolling.agg", "method(self._groupby_obj._values_to_group,", "method(self._groupby_obj._obj,", name="A4 rolling passes the whole object")
+add("A4", "break", API, BG + "sum", "self._grouper.sum(self._values_to_group, mask=mask, margins=margins)", "self._grouper.sum(self._obj[self._obj.columns], mask=mask, margins=margins)", name="A4 sum re-selects all columns")
+add("A4", "keep", API, BG + "cumsum", "return self._grouper.cumsum(self._values_to_group)", "vals = self._values_to_group\n        return self._grouper.cumsum(vals)", name="A4 selection through a local")
+add("A4", "keep", API, BG + "sum", "self._grouper.sum(self._values_to_group, mask=mask, margins=margins)", "self._grouper.sum(values=self._values_to_group, mask=mask, margins=margins)", name="A4 values by keyword")
+add("A5", "break", API, BG + "cumcount", "self._grouper.cumcount()", "self._grouper.cumcount(self._values_to_group)", name="A5 values bound to cumcount's mask parameter")
+add("A5", "break", API, BG + "nth", "self._grouper.nth(self._values_to_group, n)", "self._grouper.nth(n, self._values_to_group)", name="A5 nth arguments swapped")
+add("A5", "break", API, BG + "apply", "self._grouper.apply(self._values_to_group, func, mask, *func_args, **func_kwargs)", "self._grouper.apply(self._values_to_group, mask, func, *func_args, **func_kwargs)", name="A5 apply: mask and func swapped")
+add("A5", "break", API, BG + "std", "self._grouper.std(self._values_to_group, ddof=ddof, mask=mask, margins=margins)", "self._grouper.std(self._values_to_group, ddof, mask=mask, margins=margins)", name="A5 std: ddof lands in the mask position", expect_func="*")
+add("A6", "break", API, BG + "__iter__", "self._obj.iloc[indexer]", "self._obj.loc[indexer]", name="A6 iteration uses labels")
+add("A6", "keep", API, BG + "__iter__", "self._obj.iloc[indexer]", "self._obj.take(indexer)", name="A6 iteration with take")
+add("A7", "break", API, "DataFrameGroupBy._from_by_keys", "value_columns = [col for col in obj.columns if col not in columns_used_as_keys]", "value_columns = list(obj.columns)", name="A7 key columns stay among the values")
+add("A7", "break", API, "DataFrameGroupBy._from_by_keys", "                            columns_used_as_keys.add(key)\n", "", name="A7 key columns never recorded")
+add("A7", "break", API, "DataFrameGroupBy._values_to_group", "for col in self.value_columns}", "for col in self._obj.columns}", name="A7 _values_to_group ignores value_columns")
+add("A7", "break", API, "DataFrameGroupBy._from_by_keys", "return cls(obj, grouper=grouper, value_columns=value_columns)", "return cls(obj, grouper=grouper)", name="A7 value_columns not passed to the constructor")
+add("A3f", "break", API, BG + "mean", "self._grouper.mean(self._values_to_group, mask=mask, margins=margins)", "self._grouper.mean(self._values_to_group, margins=margins)", name="A3f mean drops mask")
+add("A3f", "break", API, BG + "var", "self._grouper.var(self._values_to_group, ddof=ddof, mask=mask, margins=margins)", "self._grouper.var(self._values_to_group, mask=mask, margins=margins)", name="A3f var drops ddof")
+add("A3f", "break", API, BG + "agg", "return method() if mask is None else method(mask=mask)", "return method()", name="A3f agg(str) drops mask on the method path")
+add("A3f", "break", API, BG + "quantile", "self._grouper.quantile(self._values_to_group, q=q, mask=mask)", "self._grouper.quantile(self._values_to_group, q=q)", name="A3f quantile drops mask")
+add("A3f", "break", API, "BaseGroupByRolling.agg", "window=self._window, min_periods=self._min_periods, mask=mask, index_by_groups=index_by_groups", "window=self._window, min_periods=self._min_periods, index_by_groups=index_by_groups", name="A3f rolling drops mask")
+add("A3f", "break", API, "BaseGroupByRolling.min", "self.agg('min', mask=mask, index_by_groups=index_by_groups)", "self.agg('min', index_by_groups=index_by_groups)", name="A3f rolling min drops mask")
+add("A3f", "break", API, BG + "size", "self._grouper.size(mask=mask)", "self._grouper.size()", name="A3f size drops mask")
+add("A3f", "keep", API, BG + "mean", "self._grouper.mean(self._values_to_group, mask=mask, margins=margins)", "self._grouper.mean(self._values_to_group, mask, margins=margins)", name="A3f mask positionally")
+add("A3m", "break", CORE, "value_counts", "GroupBy.size(x, mask=mask)", "GroupBy.size(x)", name="A3m value_counts drops mask")
+add("A3m", "break", CORE, "GroupBy.median", "self.apply(values=values, mask=mask, func=np.median, transform=transform)", "self.apply(values=values, func=np.median, transform=transform)", name="A3m median drops mask")
+add("A3m", "break", CORE, "GroupBy.density", "totals = self.sum(values, mask, margins=True)", "totals = self.sum(values, margins=True)", name="A3m density drops mask")
+add("A3m", "break", CORE, "GroupBy.cummin", "self._apply_rolling_or_cumulative_func('cummin', values, mask, skip_na=skip_na)", "self._apply_rolling_or_cumulative_func('cummin', values, skip_na=skip_na)", name="A3m cummin drops mask")
+add("A3m", "break", CORE, "GroupBy._apply_gb_reduction", "results = self._apply_gb_func_across_chunked_group_keys(effective_func_name, value_list=value_list, mask=mask)", "results = self._apply_gb_func_across_chunked_group_keys(effective_func_name, value_list=value_list)", name="A3m reduction drops mask before the kernels")
+add("A3m", "break", CORE, "GroupBy._build_arg_dict_for_function", "shared_kwargs = dict(group_key=self.group_ikey, mask=mask, ngroups=self.ngroups + 1, **kwargs)", "shared_kwargs = dict(group_key=self.group_ikey, ngroups=self.ngroups + 1, **kwargs)", name="A3m rolling/cumulative arg dict drops mask", accept_error=True)
+add("A3m", "break", NB, "_apply_cumulative", "mask=mask, target=target)", "target=target)", name="A3m cumulative kernel called without mask")
+add("A3c", "break", CORE, "GroupBy.agg", "return func(values, mask=mask, transform=transform, margins=margins, observed_only=observed_only)", "return func(values, mask=mask, transform=transform, margins=margins)", name="A3c agg drops observed_only")
+add("A3c", "break", CORE, "GroupBy.agg", "signature(self.agg).bind(v, agg_func=f, mask=mask, transform=transform, margins=margins, observed_only=observed_only)", "signature(self.agg).bind(v, agg_func=f, mask=mask, transform=transform, observed_only=observed_only)", name="A3c agg list branch drops margins")
+add("A3c", "break", CORE, "GroupBy.ratio", "kwargs = dict(mask=mask, agg_func=agg_func, margins=margins)", "kwargs = dict(mask=mask, agg_func=agg_func)", name="A3c ratio drops margins")
+add("A3c", "break", CORE, "GroupBy.median", "transform=transform)", "transform=False)", name="A3c median ignores transform")
+add("A3c", "break", CORE, "GroupBy.quantile", "self.apply(values=values, func=np.quantile, q=q, mask=mask)", "self.apply(values=values, func=np.quantile, q=0.5, mask=mask)", name="A3c quantile ignores q", accept_error=True)
+add("A3x", "break", CORE, "crosstab", "aggregation = grouper.size(mask=mask, margins=margin_levels)", "aggregation = grouper.size(margins=margin_levels)", name="A3x crosstab counts ignore mask")
+add("A3x", "break", CORE, "crosstab", "grouper.agg(values=values, agg_func=aggfunc, mask=mask, margins=margin_levels)", "grouper.agg(values=values, agg_func='sum', mask=mask, margins=margin_levels)", name="A3x crosstab ignores aggfunc")
+add("A3x", "break", CORE, "crosstab", "grouper.agg(values=values, agg_func=aggfunc, mask=mask, margins=margin_levels)", "grouper.agg(values=values, agg_func=aggfunc, mask=mask)", name="A3x crosstab values branch drops margins")
+add("A8", "break", CORE, "add_row_margin", "    data = data.sort_index()\n", "    from pandas.core.reshape.util import cartesian_product\n    data = data.sort_index()\n", name="A8 import of a helper that pandas 3 removed")
+add("A8", "break", UTIL, "to_arrow", "isinstance(a, pd.core.base.PandasObject)", "isinstance(a, pd.core.base.PandasObjectBase)", name="A8 private attribute path that does not exist")
+add("A8", "keep", CORE, "add_row_margin", "    data = data.sort_index()\n", "    from pandas.api.types import is_scalar\n    data = data.sort_index()\n", name="A8 import of a public pandas name")
